@@ -567,6 +567,85 @@ def rule_r8(repo, run):
     import_rules(run, R, c14, repo, {"C14.R5"}, only=lambda c: ":bool " in c)
 
 
+WRAPPER_LANG = {"wrapc": "c", "wrapf": "fortran", "wrapp": "python", "wrapl": "lua"}
+
+
+def rule_r9(repo, run):
+    R = run.rule("C15.R9", "every kind of declaration that has wrap flags of its own (ast.py: `self.wrap = WrapFlags(self.options)`) "
+                           "is filtered by them where it is written: an emitter `wrap_<kind>` is called under a test of the "
+                           "declaration's flag for that wrapper (or starts with one), and functions generated on behalf of a "
+                           "declaration (getter / setter of a member variable) take its flags")
+    am = repo.module("ast")
+    kinds = {}
+    for cname, cls in am.classes().items():
+        if any(isinstance(a, ast.Assign) and ast.unparse(a.targets[0]) == "self.wrap" and "WrapFlags" in ast.unparse(a.value)
+               for a in ast.walk(cls)):
+            kinds[cname] = cls
+    if not {"EnumNode", "VariableNode", "FunctionNode", "ClassNode"} <= set(kinds):
+        raise AnalysisError("C15.R9: node classes with wrap flags not found (%s)" % sorted(kinds))
+    n = 0
+    # emitters for the kinds whose filter is not part of R5: enums and member variables
+    EMITTERS = {"wrap_enum": "enum", "wrap_class_variable": "variable"}
+    for mn, lang in sorted(WRAPPER_LANG.items()):
+        m = repo.module(mn)
+        for q, fn in sorted(m.functions().items()):
+            for c in ast.walk(fn):
+                if not (isinstance(c, ast.Call) and isinstance(c.func, ast.Attribute) and c.func.attr in EMITTERS
+                        and pyflow.is_name(c.func.value, "self")):
+                    continue
+                kind = EMITTERS[c.func.attr]
+                # which argument is the declaration: the loop variable of the enclosing loop over .enums / .variables
+                decl = None
+                for p_ in parent_chain(c):
+                    if isinstance(p_, ast.For) and isinstance(p_.target, ast.Name) and \
+                            any(pyflow.is_name(a, p_.target.id) for a in c.args):
+                        decl = p_.target.id
+                        break
+                if decl is None:
+                    continue      # a call for one given declaration (from a class): its caller's loop is the site
+                n += 1
+                flag = "%s.wrap.%s" % (decl, lang)
+                atoms = pyflow.path_atoms(c, stop=fn, seg=ast.unparse)
+                guards = set((ast.unparse(t), pol) for t, pol in pyflow.early_exit_guards(fn, c))
+                ok = (flag, True) in atoms or (flag, True) in guards
+                if not ok:
+                    # the emitter itself starts with the test
+                    callee = "%s.%s" % (q.rsplit(".", 1)[0], c.func.attr) if "." in q else c.func.attr
+                    if m.has_func(callee):
+                        cf = m.func(callee)
+                        for st in cf.body[:6]:
+                            if isinstance(st, ast.If) and (".wrap.%s" % lang) in ast.unparse(st.test) and st.body and \
+                                    isinstance(st.body[-1], ast.Return):
+                                ok = True
+                run.check(R, "%s.%s:%s(%s):flag" % (mn, q, c.func.attr, decl), ok,
+                          "%s is called for every %s of the container; `%s` is never tested: `options: {wrap_%s: false}` on the %s "
+                          "has no effect" % (c.func.attr, kind, flag, lang, kind), m.loc(c))
+    run.floor(R, "emitters called per enum / member variable", n, 4)
+    # functions generated for a member variable
+    gm = repo.module("generate")
+    gs = gm.func("GenFunctions.add_var_getter_setter")
+    made = [a for a in ast.walk(gs) if isinstance(a, ast.Assign) and isinstance(a.targets[0], ast.Name)
+            and isinstance(a.value, ast.Call) and (pyflow.call_name(a.value) or "").endswith("add_function")]
+    if len(made) < 2:
+        raise AnalysisError("C15.R9: getter / setter creation in add_var_getter_setter not found")
+    for k, a in enumerate(sorted(made, key=lambda a: a.lineno)):
+        name = a.targets[0].id
+        nxt = [b.lineno for b in made if b.lineno > a.lineno]
+        end = min(nxt) if nxt else (gs.end_lineno or 10 ** 9)
+        takes = False
+        for x in ast.walk(gs):
+            if not (a.lineno < getattr(x, "lineno", 0) <= end):
+                continue
+            if isinstance(x, ast.Call) and ast.unparse(x.func) == "%s.wrap.assign" % name and "var.wrap." in ast.unparse(x):
+                takes = True
+            if isinstance(x, ast.Assign) and ast.unparse(x.targets[0]).startswith("%s.wrap" % name) and "var.wrap" in ast.unparse(x.value):
+                takes = True
+        run.check(R, "generate.GenFunctions.add_var_getter_setter:%s#%d:flags-of-variable" % (name, k), takes,
+                  "the %s of a member variable is created with the wrap flags of the class (add_function's defaults) and "
+                  "never takes `var.wrap`: `options: {wrap_fortran: false}` on the variable has no effect"
+                  % ("getter" if k == 0 else "setter"), gm.loc(a))
+
+
 def run(repo, run, tier):
     P = Program(repo)
     rule_r1(repo, run)
@@ -577,5 +656,6 @@ def run(repo, run, tier):
     rule_r6(repo, run)
     rule_x(repo, run)
     rule_r8(repo, run)
+    rule_r9(repo, run)
     run.assumptions.append("the property's domain requests Fortran only together with C, so a test of the "
                            "Fortran flag is accepted as guard for switching the C flag on")
